@@ -24,6 +24,8 @@ PATTERNS = [
     [(A(D('1'), 'HOOL'), LOT_A), (A(D('1'), 'HOOL'), None), (A(D('-2.50'), 'USD'), None)],
     [(A(D('0.001'), 'EUR'), None), (A(D('-12345.678'), 'USD'), None), (A(D('1E+2'), 'USD'), None)],
     [(A(D('-5000.00'), 'USD'), None), (A(D('-5000.00'), 'USD'), None), (A(D('-5000.00'), 'USD'), None)],   # identical postings
+    [(A(D('0.00'), 'USD'), None), (A(D('0'), 'HOOL'), LOT_A), (A(D('4.00'), 'EUR'), None)],                 # zero amounts
+    [(A(D('0.00'), 'EUR'), None), (A(D('0.00'), 'EUR'), None), (A(D('0.00'), 'EUR'), None)],
 ]
 PRICES = [data.Price(ledger.meta(90), datetime.date(2019, 1, 1), 'HOOL', A(D('110.00'), 'USD')),
           data.Price(ledger.meta(91), datetime.date(2019, 1, 1), 'EUR', A(D('1.25'), 'USD')),
@@ -78,8 +80,8 @@ def _q(conn, text):
 
 
 @cond('C12.sum', quick=240, thorough=900,
-      bounds='3 postings from 5 amount / lot patterns (lot reductions, two lots of one commodity, three currencies, cost and '
-             'no cost), in one or two transactions; symbolic: which postings the WHERE condition selects, which account each '
+      bounds=f'3 postings from {len(PATTERNS)} amount / lot patterns (lot reductions, two lots of one commodity, three currencies, '
+             'cost and no cost, identical postings, zero amounts), in one or two transactions; symbolic: which postings the WHERE condition selects, which account each '
              'posting is on: sum(position) equals the Beancount inventory sum of the selection; sums per account add up to the whole',
       symbolic='selection bits, account bits, transaction split', enumerated='amount pattern', params=PARAMS)
 def sum_positions(**kw):
